@@ -31,21 +31,21 @@ func PlanFor(prop, tier string) (*Plan, error) {
 		p.Monitors = func() []Monitor { return []Monitor{NewC03()} }
 		p.Rule = "order-book enumeration: every book of <=N real PlaceBid calls (bidder x kind x price x amount, incl. a price level that turns small worth-bids into zero coins) under several cap/supply assignments, plus every book the modification scenario reaches; for each distinct book the MatchingInfo of the real CalculateBatchAllocation and, at the settlement block, the delivered coins are compared with the definition (linear scan over all recorded prices, exact rationals); non-trivial = distinct order books (digest of bids, caps, supply)"
 	case "C04":
-		p.Scenarios = append(bookScenarios(tier), S1b(tier, "3", true), S1b(tier, "0.5", false), S2b(tier, 2, false), S2o(tier), S2m(tier), S11(tier), S13(tier, false), S13(tier, true))
+		p.Scenarios = append(bookScenarios(tier), S1b(tier, "3", true), S1b(tier, "0.5", false), S2b(tier, 2, false), S2o(tier), S2m(tier), S11(tier), S13(tier, false), S13(tier, true), S1b(tier, "3", true).withBudget(Budget{"update": 0, "bid": 3, "block": 2, "tick": 0}, "-lite").withReimport(false))
 		if !quick {
 			p.Scenarios = append(p.Scenarios, S1b(tier, "0.333333333333333333", true), S2b(tier, 0, true), S2a(tier, true))
 		}
 		p.Monitors = func() []Monitor { return []Monitor{NewC04()} }
 		p.Rule = "same enumeration; at every settlement each bidder's payment (reservation minus refund read off the bank transfers) is bounded by P*q <= paid < P*q + #matched bids and by the reservation, losers get everything back, P* never exceeds a matched bid's limit; every accepted fixed-price bid is checked against its rounding bound; non-trivial = distinct (P*, quantity, paid, matched bids, reserved) winner cases and distinct fixed bids"
 	case "C05":
-		p.Scenarios = append(bookScenarios(tier), S1b(tier, "3", true), S1b(tier, "0.5", false), S2b(tier, 0, true), S3(tier, false), S3x(tier), S3e(tier), S2o(tier), S2m(tier), S11(tier), S12(tier), S13(tier, false), S13(tier, true))
+		p.Scenarios = append(bookScenarios(tier), S1b(tier, "3", true), S1b(tier, "0.5", false), S2b(tier, 0, true), S3(tier, false), S3x(tier), S3e(tier), S2o(tier), S2m(tier), S11(tier), S12(tier), S13(tier, false), S13(tier, true), S1b(tier, "3", true).withBudget(Budget{"update": 0, "bid": 3, "block": 2, "tick": 0}, "-lite").withReimport(false))
 		if !quick {
 			p.Scenarios = append(p.Scenarios, S1a(tier, true), S2a(tier, false), S2b(tier, 2, false))
 		}
 		p.Monitors = func() []Monitor { return []Monitor{NewC05()} }
 		p.Rule = "same enumeration; every accepted fixed-price bid is checked against the cap and remainder of the pre-state, every settlement against cap (as of settlement), request at the clearing price and offered amount; non-trivial = distinct (received, cap, price) cases"
 	case "C06":
-		p.Scenarios = []*Scenario{S1b(tier, "3", true), S1b(tier, "0.5", false), S1a(tier, true), S1p(tier), S3x(tier), S3e(tier)}
+		p.Scenarios = []*Scenario{S1b(tier, "3", true), S1b(tier, "0.5", false), S1a(tier, true), S1p(tier), S3x(tier), S3e(tier), S1b(tier, "3", true).withBudget(Budget{"update": 0, "bid": 3, "block": 2, "tick": 0}, "-lite").withReimport(true)}
 		if !quick {
 			p.Scenarios = append(p.Scenarios, S1b(tier, "0.333333333333333333", true), S1b(tier, "1", false), S1a(tier, false))
 		}
@@ -166,7 +166,7 @@ func PlanFor(prop, tier string) (*Plan, error) {
 		p.Rule = "the node binary is built from the working tree with default settings; (1) it must start (--help); (2) in-process, every command option of the module's AutoCLI configuration is resolved against the registered protobuf descriptors exactly as AutoCLI does (fields.ByName): RPC exists, every positional binding names a field of the request, Use placeholders match the bound fields in order, by-id queries bind every key part, every RPC of both services is reachable or a documented exemption; (3) the whole `query fundraising` / `tx fundraising` command tree of the binary is walked breadth first with --help on every node; (4) every custom-bound tx leaf is run with --generate-only --offline and one distinct sentinel per argument, and the generated JSON must carry each sentinel in the field the argument is documented for; thorough adds (5) a one-node loopback chain started from a genesis whose module part is exported by the explorer (auction + allow-list entry + bid + instalment), which must produce >=3 blocks and answer every query leaf with the exported objects; non-trivial = distinct (service, RPC, binding), tree nodes and (command, argument) pairs"
 		p.Assume = []string{trustNote, "build tags beyond the defaults (ledger) are not covered", "UpdateParams (authority-gated) and AddAllowedBidder (disabled in default builds, C10) are documented exemptions from 'reachable through a command'"}
 	case "C07":
-		p.Scenarios = []*Scenario{S3(tier, false), S3r(tier), S1a(tier, true), S2a(tier, false), S1d(tier), S2d(tier), S10(tier, false), S10(tier, true), S10p()}
+		p.Scenarios = []*Scenario{S3(tier, false).withMalformedBids(), S3r(tier), S1a(tier, true), S2a(tier, false).withMalformedBids(), S1d(tier), S2d(tier), S10(tier, false), S10(tier, true), S10p()}
 		if !quick {
 			p.Scenarios = append([]*Scenario{S3(tier, false), S3(tier, true), S3r(tier), S10p(), S1d(tier), S2d(tier), S10(tier, false), S10(tier, true)}, moneyScenarios(tier)...)
 		}
